@@ -1,0 +1,79 @@
+//! Verification seams. Compiled only with `--cfg futures_buffered_verif`.
+//!
+//! Everything in here is observation only: the crate reports what it is about to do to a
+//! handler installed by an external harness. With no handler installed every probe is a no-op.
+
+use core::sync::atomic::{AtomicUsize, Ordering};
+
+/// Which waker vtable entry was entered.
+#[derive(Clone, Copy, Debug, PartialEq, Eq)]
+pub enum WakerOp {
+    Clone,
+    Wake,
+    WakeByRef,
+    Drop,
+}
+
+/// Rare branches whose reach the harness wants to count.
+#[derive(Clone, Copy, Debug, PartialEq, Eq)]
+#[repr(u8)]
+pub enum Hit {
+    BudgetExhausted = 0,
+    QueueInconsistent = 1,
+    VacantSlotPopped = 2,
+    GroupCreated = 3,
+    GroupDiscarded = 4,
+    GroupRotated = 5,
+    OrderedRebase = 6,
+    MergeRearmed = 7,
+    MergeSourceRemoved = 8,
+}
+
+#[derive(Clone, Copy, Debug)]
+pub enum Event {
+    /// A waker block was allocated: `[base, base+size)`, `cap` slots (+1 stub).
+    BlockAlloc {
+        base: usize,
+        size: usize,
+        align: usize,
+        cap: usize,
+    },
+    /// A waker block is about to be destroyed and released with this layout.
+    BlockRelease {
+        base: usize,
+        size: usize,
+        align: usize,
+    },
+    /// A waker vtable entry was entered with this data pointer. Nothing was dereferenced yet.
+    WakerEnter { op: WakerOp, item: usize },
+    /// The header address computed for `item`.
+    WakerResolved { item: usize, header: usize },
+    /// The owning handle is about to use its block.
+    HandleUse { base: usize },
+    /// The owning handle is being dropped.
+    HandleDrop { base: usize },
+    /// A rare branch was reached.
+    Hit(Hit),
+}
+
+static HANDLER: AtomicUsize = AtomicUsize::new(0);
+
+/// Installs the process-wide handler. The handler may be called from any thread.
+pub fn set_handler(f: fn(&Event)) {
+    HANDLER.store(f as usize, Ordering::SeqCst);
+}
+
+#[inline]
+pub(crate) fn emit(e: Event) {
+    let p = HANDLER.load(Ordering::Relaxed);
+    if p != 0 {
+        // SAFETY: only `set_handler` stores here, and it stores a `fn(&Event)`.
+        let f: fn(&Event) = unsafe { core::mem::transmute::<usize, fn(&Event)>(p) };
+        f(&e);
+    }
+}
+
+#[inline]
+pub(crate) fn hit(h: Hit) {
+    emit(Event::Hit(h));
+}
